@@ -21,6 +21,7 @@ CONSTANTS
   Prefix <- MCPrefix
   MaxHavoc = 0
   KeepRec = FALSE
+  NestedTrigs = {}
 INVARIANT NoBad
 INVARIANT Structural
 CHECK_DEADLOCK FALSE
